@@ -44,6 +44,9 @@ package resprot
 //@   callsite select#1 builtin.selectInbox
 //@   callback f extendCB
 //@   ghost select 1 after :: set lastsel = arg_index
+//@   # nats.go hands a message to a channel subscription with a non-blocking send and drops it when the channel cannot
+//@   # take it: a response that arrives while SendRequest is not in its select is only kept by a buffered inbox channel
+//@   ghost call Conn.ChanSubscribe#1 before :: assert buffered: cap(arg_ch) >= 1
 //@   # the waiting loop is entered only with the request published and the inbox subscribed
 //@   ghost call NewTimer#1 before :: assert published: isNil(err) && pubreq == old(pubreq) + 1 && subopen == old(subopen) + 1
 //@   # a timeout pre-response restarts the deadline with the announced duration before the callbacks are told
